@@ -58,16 +58,24 @@ class Run:
             del self.events[:]
         self.expected_execs = {i: (0 if i in pre else 1) for i in set(specs)}
         codes = set()
-        if line_mode:
+        if line_mode == "mutex":
+            # every source line of the function that hands out the per-call lock
+            from twosigma.memento import runner_local
+            codes.add(runner_local._mutex_for_invocation.__code__)
+        elif line_mode:
             for nm, f in vars(MemoryCache).items():
                 f = getattr(f, "__wrapped__", f)
                 if callable(f) and hasattr(f, "__code__") and not nm.startswith("_estimate") and not nm.startswith("_pd") \
                         and not nm.startswith("_cache_key"):
                     codes.add(f.__code__)
+        if line_mode == "mutex":
+            call_files = ()                 # only the lines of the lock-table function and the bodies are scheduling points
         self.sched = Scheduler(codes, call_files)
         sched = self.sched
         self.cache = getattr(self.backend, "_memory_cache", None)
         for attr, label in (("_memory_cache", "cache"), ("_metadata_source", "meta"), ("_data_source", "data")):
+            if line_mode == "mutex":
+                break
             if getattr(self.backend, attr, None) is not None:
                 setattr(self.backend, attr, PointProxy(getattr(self.backend, attr), label, sched))
         ev = self.events
@@ -185,22 +193,23 @@ def run(tier, seed):
         m = implenv.setup(scratch)
         if tier == "quick":
             plan = [("cold-same", 2, 70, 0, False), ("warmstore-coldcache-same", 2, 50, 0, False), ("cold-diff-tightcache", 1, 30, 0, False),
-                    ("warmcache-same", 1, 10, 0, False), ("warmstore-coldcache-same", 0, 0, 25, True), ("cold-diff-tightcache", 0, 0, 15, True)]
+                    ("warmcache-same", 1, 10, 0, False), ("warmstore-coldcache-same", 0, 0, 25, True), ("cold-diff-tightcache", 0, 0, 15, True),
+                    ("cold-same", 2, 320, 0, "mutex")]
             if not gate["ok"]:      # search mode: an obligation is broken, look harder for a failing schedule
                 plan = [(n, b + 1, r * 4, rr * 4, lm) for (n, b, r, rr, lm) in plan]
         else:
-            plan = [(n, 3, 400, 0, False) for n in SCENARIOS] + [(n, 0, 0, 150, True) for n in SCENARIOS]
+            plan = [(n, 3, 400, 0, False) for n in SCENARIOS] + [(n, 0, 0, 150, True) for n in SCENARIOS] + [(n, 2, 150, 0, "mutex") for n in ("cold-same", "cold-same-3", "mixed-3")]
         total, distinct = 0, set()
         cover = {}
         for name, bound, max_runs, random_runs, line_mode in plan:
             results, left = explore(lambda: Run(m, scratch, name, line_mode), bound, max_runs, rng, random_runs)
-            cover["%s/%s" % (name, "line" if line_mode else "call")] = {"schedules": len(results), "unexplored_prefixes_left": left,
+            cover["%s/%s" % (name, ("lock-table-lines" if line_mode == "mutex" else "line") if line_mode else "call")] = {"schedules": len(results), "unexplored_prefixes_left": left,
                                                                        "preemption_bound": bound}
             for trace, verdicts, choices in results:
                 total += 1
                 distinct.add((name, line_mode, tuple(trace)))
                 for sig, what in verdicts:
-                    rep.violation("C09:%s:%s" % (sig, name), "scenario %s, %s granularity: %s" % (name, "line" if line_mode else "call", what),
+                    rep.violation("C09:%s:%s" % (sig, name), "scenario %s, %s granularity: %s" % (name, ("lock-table lines" if line_mode == "mutex" else "line") if line_mode else "call", what),
                                   {"scenario": name, "granularity": "line" if line_mode else "call", "choices": choices,
                                    "schedule(thread, point)": trace[:200]})
                 if len(rep.samples) < 3 and len(trace) > 8:
